@@ -299,8 +299,47 @@ func (m *Machine) jsonStoreInto(src Value, dst Value) Value {
 	if !types.AssignableTo(st, pt.Elem()) {
 		return m.freshError("json: cannot unmarshal into a value of a different type")
 	}
-	m.store(p, val)
+	m.store(p, m.rawMessageReuse(pt.Elem(), m.load(p), val))
 	return IfaceVal{}
+}
+
+// rawMessageReuse reproduces one piece of encoding/json that matters for aliasing: decoding into a
+// json.RawMessage does *m = append((*m)[0:0], data...), i.e. it writes into the destination's
+// existing backing array when the capacity suffices - so a RawMessage copied out of a reused
+// destination changes when the next value is decoded. Only concrete byte contents are handled
+// (opaque blobs are replaced, as a fresh allocation would).
+func (m *Machine) rawMessageReuse(t types.Type, cur, nv Value) Value {
+	if n, ok := t.(*types.Named); ok && n.Obj().Pkg() != nil && n.Obj().Pkg().Path() == "encoding/json" && n.Obj().Name() == "RawMessage" {
+		cs, ok1 := cur.(SliceVal)
+		ns, ok2 := nv.(SliceVal)
+		if !ok1 || !ok2 || cs.arr == nil || ns.arr == nil || ns.len > cs.cap {
+			return nv
+		}
+		ca, okc := cs.arr.v.(ArrayVal)
+		na, okn := ns.arr.v.(ArrayVal)
+		if !okc || !okn || cs.off+ns.len > len(ca.e) {
+			return nv
+		}
+		for i := 0; i < ns.len; i++ {
+			m.store(PtrVal{obj: cs.arr, path: []int{cs.off + i}}, na.e[ns.off+i])
+		}
+		return SliceVal{arr: cs.arr, off: cs.off, len: ns.len, cap: cs.cap}
+	}
+	st, ok := t.Underlying().(*types.Struct)
+	if !ok {
+		return nv
+	}
+	cv, ok1 := cur.(StructVal)
+	nw, ok2 := nv.(StructVal)
+	if !ok1 || !ok2 || len(cv.f) != len(nw.f) {
+		return nv
+	}
+	f := make([]Value, len(nw.f))
+	copy(f, nw.f)
+	for i := 0; i < st.NumFields(); i++ {
+		f[i] = m.rawMessageReuse(st.Field(i).Type(), cv.f[i], nw.f[i])
+	}
+	return StructVal{f}
 }
 
 // msgSize: the byte length of message i on the wire, an arbitrary ordinary size.
